@@ -23,9 +23,9 @@ open Glm.Hand.C14 Glm.Props.C14.Bridge
 /-! ## binary32 -/
 
 theorem nextFloat32_eq_nextUp (x : UInt32) : glmNextFloat32 x = nextUp32 x := by
-  unfold glmNextFloat32 nextafter32 nextUp32 isZero32 sign32 isNaN32 qNaN32; bv_decide
+  unfold glmNextFloat32 nextafter32 nextUp32 isZero32 sign32 isNaN32 qNaN32; bv_decide (config := { timeout := 180 })
 theorem prevFloat32_eq_nextDown (x : UInt32) : glmPrevFloat32 x = nextDown32 x := by
-  unfold glmPrevFloat32 nextafter32 nextDown32 isZero32 sign32 isNaN32 qNaN32; bv_decide
+  unfold glmPrevFloat32 nextafter32 nextDown32 isZero32 sign32 isNaN32 qNaN32; bv_decide (config := { timeout := 180 })
 
 /-- C14, first clause: for every finite x, `nextFloat(x)` is the smallest representable value greater than x -/
 theorem nextFloat32_least (x y : UInt32) (hx : isFinite32 x = true) (hy : isNaN32 y = false) :
@@ -46,10 +46,10 @@ theorem prevFloat32_key (x : UInt32) (hx : isNaN32 x = false) (hi : (x == 0xFF80
 /-- stepping up then down returns to x (as a value: −0 comes back as +0) -/
 theorem prev_next32 (x : UInt32) (hx : isFinite32 x = true) :
     feq32 (glmPrevFloat32 (glmNextFloat32 x)) x = true := by
-  unfold glmPrevFloat32 glmNextFloat32 nextafter32 feq32 isFinite32 mag32 isNaN32 qNaN32 at *; bv_decide
+  unfold glmPrevFloat32 glmNextFloat32 nextafter32 feq32 isFinite32 mag32 isNaN32 qNaN32 at *; bv_decide (config := { timeout := 180 })
 theorem next_prev32 (x : UInt32) (hx : isFinite32 x = true) :
     feq32 (glmNextFloat32 (glmPrevFloat32 x)) x = true := by
-  unfold glmPrevFloat32 glmNextFloat32 nextafter32 feq32 isFinite32 mag32 isNaN32 qNaN32 at *; bv_decide
+  unfold glmPrevFloat32 glmNextFloat32 nextafter32 feq32 isFinite32 mag32 isNaN32 qNaN32 at *; bv_decide (config := { timeout := 180 })
 
 /-- the loop of `nextFloat(x, ULPs)`: one more iteration is one more single step -/
 theorem nextFloatN32_succ (x : UInt32) (n : Nat) :
@@ -102,19 +102,19 @@ theorem prevFloatN32_key (x : UInt32) (n : Nat) (hx : isNaN32 x = false) (hb : -
 theorem preFixPrevFloat32_partial (x : UInt32) (hx : isFinite32 x = true) (h : flt32 0x00800000 x = true) :
     preFixPrevFloat32 x = nextDown32 x := by
   unfold preFixPrevFloat32 nextafter32 nextDown32 flt32 isFinite32 isZero32 sign32 mag32 isNaN32 qNaN32 at *
-  bv_decide
+  bv_decide (config := { timeout := 180 })
 /-- … and wrong for every finite x at or below it (all negative numbers, zeros, subnormals) -/
 theorem preFixPrevFloat32_wrong (x : UInt32) (hx : isFinite32 x = true) (h : fle32 x 0x00800000 = true) :
     (preFixPrevFloat32 x == nextDown32 x) = false := by
   unfold preFixPrevFloat32 nextafter32 nextDown32 fle32 flt32 feq32 isFinite32 isZero32 sign32 mag32 isNaN32 qNaN32 at *
-  bv_decide
+  bv_decide (config := { timeout := 180 })
 /-- witnesses: prevFloat(-1) = -1 + ulp, prevFloat(0) = +min subnormal -/
 theorem preFixPrevFloat32_refuted : ¬ ∀ x : UInt32, isFinite32 x = true → preFixPrevFloat32 x = nextDown32 x := by
   intro h; have := h 0xBF800000 (by decide); revert this; decide
 theorem preFixPrevFloat32_zero : preFixPrevFloat32 0 = 0x00000001 ∧ nextDown32 0 = 0x80000001 := by decide
 theorem preFixNextFloat32_partial (x : UInt32) (hx : isFinite32 x = true) (h : (x == 0x7F7FFFFF) = false) :
     preFixNextFloat32 x = nextUp32 x := by
-  unfold preFixNextFloat32 nextafter32 nextUp32 isFinite32 isZero32 sign32 isNaN32 qNaN32 at *; bv_decide
+  unfold preFixNextFloat32 nextafter32 nextUp32 isFinite32 isZero32 sign32 isNaN32 qNaN32 at *; bv_decide (config := { timeout := 180 })
 /-- nextFloat(max) = max instead of +∞ -/
 theorem preFixNextFloat32_refuted : ¬ ∀ x : UInt32, isFinite32 x = true → preFixNextFloat32 x = nextUp32 x := by
   intro h; have := h 0x7F7FFFFF (by decide); revert this; decide
@@ -128,9 +128,9 @@ example : isNaN32 0x80000001 = false ∧ ordKey32 0x80000001 + (3 : Nat) ≤ 213
 /-! ## binary64 -/
 
 theorem nextFloat64_eq_nextUp (x : UInt64) : glmNextFloat64 x = nextUp64 x := by
-  unfold glmNextFloat64 nextafter64 nextUp64 isZero64 sign64 isNaN64 qNaN64; bv_decide
+  unfold glmNextFloat64 nextafter64 nextUp64 isZero64 sign64 isNaN64 qNaN64; bv_decide (config := { timeout := 180 })
 theorem prevFloat64_eq_nextDown (x : UInt64) : glmPrevFloat64 x = nextDown64 x := by
-  unfold glmPrevFloat64 nextafter64 nextDown64 isZero64 sign64 isNaN64 qNaN64; bv_decide
+  unfold glmPrevFloat64 nextafter64 nextDown64 isZero64 sign64 isNaN64 qNaN64; bv_decide (config := { timeout := 180 })
 
 /-- C14, first clause: for every finite x, `nextFloat(x)` is the smallest representable value greater than x -/
 theorem nextFloat64_least (x y : UInt64) (hx : isFinite64 x = true) (hy : isNaN64 y = false) :
@@ -151,10 +151,10 @@ theorem prevFloat64_key (x : UInt64) (hx : isNaN64 x = false) (hi : (x == 0xFFF0
 /-- stepping up then down returns to x (as a value: −0 comes back as +0) -/
 theorem prev_next64 (x : UInt64) (hx : isFinite64 x = true) :
     feq64 (glmPrevFloat64 (glmNextFloat64 x)) x = true := by
-  unfold glmPrevFloat64 glmNextFloat64 nextafter64 feq64 isFinite64 mag64 isNaN64 qNaN64 at *; bv_decide
+  unfold glmPrevFloat64 glmNextFloat64 nextafter64 feq64 isFinite64 mag64 isNaN64 qNaN64 at *; bv_decide (config := { timeout := 180 })
 theorem next_prev64 (x : UInt64) (hx : isFinite64 x = true) :
     feq64 (glmNextFloat64 (glmPrevFloat64 x)) x = true := by
-  unfold glmPrevFloat64 glmNextFloat64 nextafter64 feq64 isFinite64 mag64 isNaN64 qNaN64 at *; bv_decide
+  unfold glmPrevFloat64 glmNextFloat64 nextafter64 feq64 isFinite64 mag64 isNaN64 qNaN64 at *; bv_decide (config := { timeout := 180 })
 
 /-- the loop of `nextFloat(x, ULPs)`: one more iteration is one more single step -/
 theorem nextFloatN64_succ (x : UInt64) (n : Nat) :
@@ -207,19 +207,19 @@ theorem prevFloatN64_key (x : UInt64) (n : Nat) (hx : isNaN64 x = false) (hb : -
 theorem preFixPrevFloat64_partial (x : UInt64) (hx : isFinite64 x = true) (h : flt64 0x0010000000000000 x = true) :
     preFixPrevFloat64 x = nextDown64 x := by
   unfold preFixPrevFloat64 nextafter64 nextDown64 flt64 isFinite64 isZero64 sign64 mag64 isNaN64 qNaN64 at *
-  bv_decide
+  bv_decide (config := { timeout := 180 })
 /-- … and wrong for every finite x at or below it (all negative numbers, zeros, subnormals) -/
 theorem preFixPrevFloat64_wrong (x : UInt64) (hx : isFinite64 x = true) (h : fle64 x 0x0010000000000000 = true) :
     (preFixPrevFloat64 x == nextDown64 x) = false := by
   unfold preFixPrevFloat64 nextafter64 nextDown64 fle64 flt64 feq64 isFinite64 isZero64 sign64 mag64 isNaN64 qNaN64 at *
-  bv_decide
+  bv_decide (config := { timeout := 180 })
 /-- witnesses: prevFloat(-1) = -1 + ulp, prevFloat(0) = +min subnormal -/
 theorem preFixPrevFloat64_refuted : ¬ ∀ x : UInt64, isFinite64 x = true → preFixPrevFloat64 x = nextDown64 x := by
   intro h; have := h 0xBFF0000000000000 (by decide); revert this; decide
 theorem preFixPrevFloat64_zero : preFixPrevFloat64 0 = 0x0000000000000001 ∧ nextDown64 0 = 0x8000000000000001 := by decide
 theorem preFixNextFloat64_partial (x : UInt64) (hx : isFinite64 x = true) (h : (x == 0x7FEFFFFFFFFFFFFF) = false) :
     preFixNextFloat64 x = nextUp64 x := by
-  unfold preFixNextFloat64 nextafter64 nextUp64 isFinite64 isZero64 sign64 isNaN64 qNaN64 at *; bv_decide
+  unfold preFixNextFloat64 nextafter64 nextUp64 isFinite64 isZero64 sign64 isNaN64 qNaN64 at *; bv_decide (config := { timeout := 180 })
 /-- nextFloat(max) = max instead of +∞ -/
 theorem preFixNextFloat64_refuted : ¬ ∀ x : UInt64, isFinite64 x = true → preFixNextFloat64 x = nextUp64 x := by
   intro h; have := h 0x7FEFFFFFFFFFFFFF (by decide); revert this; decide
